@@ -52,4 +52,14 @@ def params(rng: random.Random) -> Any:
         return [value(rng, 3) for _ in range(rng.randint(1, 4))]
     if r < 0.7:
         return tuple(value(rng, 2) for _ in range(rng.randint(1, 3)))
-    return {rng.choice('abcdxyz') + rng.choice(['', '1', '_']): value(rng, 3) for _ in range(rng.randint(1, 4))}
+    if r < 0.9:
+        return {rng.choice('abcdxyz') + rng.choice(['', '1', '_']): value(rng, 3) for _ in range(rng.randint(1, 4))}
+    # member names of a params object are JSON strings, not Python identifiers
+    return {rng.choice(PARAM_KEYS): value(rng, 2) for _ in range(rng.randint(1, 3))}
+
+
+PARAM_KEYS = ['content-type', '', '2fa', 'a b', '$ref', 'user.id', '\U0001F600', 'class', 'é', ' ', 'x-y', '0', 'jsonrpc', 'id', 'params']
+
+
+def _unused():
+    return None
